@@ -5,6 +5,9 @@ import LitexProofs.Fhdl.LowerCorrect
 import LitexProofs.Fhdl.PrintSign
 import LitexProofs.Fhdl.MemoryEquiv
 import LitexProofs.Fhdl.InstanceExact
+import LitexProofs.Fhdl.SimBackendEquiv
+import LitexProofs.Fhdl.MemoryNEquiv
+import LitexProofs.Fhdl.ResetInsertCorrect
 /-
   C01 — generated Verilog behaves exactly like the simulated FHDL design.
 
@@ -344,6 +347,170 @@ example : runF exF2 2 (initF exF2) exSched =
 example : runV exF2.sigs (printModule exF2) 2 #[0, 0, 0, 0] exSched =
     [#[0, 0, 0, 0], #[1, 0, 0, 0], #[1, 1, 0, 0], #[2, 1, 0, 0], #[3, 2, 0, 0]] := by decide +kernel
 
+/-! ## The simulation-flavoured comb back-end (`convert(..., regular_comb=False)`)
+
+  `_generate_combinatorial_logic_sim` emits ONE item per comb target `t` — `assign` if the only top-level
+  statement for `t` is a whole-signal assignment, else `always @(*) begin t <= reset; <statements filtered to t> end`
+  with `_generate_node(..., target_filter=t)`: a node without `t` among its targets prints nothing, `If`/`Case`
+  forward the filter to both branches / every item and `default`.  Model: `filterSs t` (what survives),
+  `printSsF t` (the printer with the filter), `printModuleSim` (LitexModel/Fhdl/SimBackend.lean; compared node by
+  node with the real text of every third random module, and the text executed by the Lean Verilog semantics
+  against `stepF`).  `leafTargetsSs ss`: every assignment drives ONE signal (a signal or a slice of one).
+
+  Full statement (does NOT hold: an assignment to a `Cat` of several signals is repeated in the block of each of
+  them, so the blocks race on those registers — negative witness below):
+  theorem module_comb_step_sim_equiv (f : FModule) (aF aV : Array Int) (h : StRel f.sigs aF aV)
+      (hg : ∀ g ∈ f.comb, GroupOk f.sigs (envA aF) g) :
+      StRel f.sigs (iterF f aF) (iterV f.sigs (printModuleSim f) aV)
+-/
+
+/-- **Every per-target block drives only its own target**: the statements kept by `target_filter = t` leave the
+    pending value of every other signal `u` untouched — through `If`/`Else` and `Case`/`default` nesting. -/
+theorem filter_writes_own_target_partial (ρ : Env) (t u : Nat) (hut : u ≠ t) (ss : Stmts)
+    (hl : leafTargetsSs ss = true) (m : Mods) :
+    lookupM (execFs ρ (filterSs t ss) m) u = lookupM m u :=
+  filter_otherSs ρ t u hut ss hl m
+
+/-- **…and computes its target like the unfiltered list**: on `t`, executing only the statements kept for `t`
+    gives what executing ALL statements gives (slice assignments to `t` merge identically; assignments to other
+    signals never feed back: right-hand sides read the committed values). -/
+theorem filter_computes_target_partial (ρ : Env) (t : Nat) (ss : Stmts) (hl : leafTargetsSs ss = true) (m : Mods) :
+    lookupM (execFs ρ (filterSs t ss) m) t = lookupM (execFs ρ ss m) t :=
+  filter_sameSs ρ t ss hl m m rfl
+
+/-- The printer with the filter executes exactly like the unfiltered printer on the surviving statements (the only
+    textual difference: `else` / case items are printed for the UNFILTERED structure, possibly with empty bodies). -/
+theorem filtered_printer_equiv (ρ : Nat → Int) (t : Nat) (ss : Stmts) (p : Pending) :
+    execVs ρ (printSsF t ss) p = execVs ρ (printSs (filterSs t ss)) p :=
+  execVs_printSsF ρ t ss p
+
+/-- **Per-target blocks = unfiltered statement list** (`GroupOkSim`: declared widths, distinct case keys, `fitsSs`,
+    printable resets, one signal per assignment, `g.targets` duplicate-free and containing every target): all the
+    items emitted for a group, executed together under the Verilog rules, keep `Rel` with the simulator's
+    default-then-statements evaluation of the whole group. -/
+theorem sim_comb_group_equiv_partial (sigs : Array SigDecl) (ρ : Env) (g : CombGroup) (m : Mods) (p : Pending)
+    (h : Rel (wdOf sigs) ρ m p) (hg : GroupOkSim sigs ρ g) :
+    Rel (wdOf sigs) ρ (combStepF sigs ρ m g)
+      ((printCombGroupSim sigs g).foldl (combStepV (bitsEnv (wdOf sigs) ρ)) p) :=
+  sim_group_step sigs ρ g m p h hg
+
+/-- One comb evaluation + commit of the module printed with `regular_comb=False` = one of the simulator. -/
+theorem module_comb_step_sim_equiv_partial (f : FModule) (aF aV : Array Int) (h : StRel f.sigs aF aV)
+    (hg : ∀ g ∈ f.comb, GroupOkSim f.sigs (envA aF) g) :
+    StRel f.sigs (iterF f aF) (iterV f.sigs (printModuleSim f) aV) :=
+  stRel_iter_sim f aF aV h hg
+
+/-- Comb settling of the per-target blocks (acyclic comb logic reaches the simulator's fix-point). -/
+theorem module_settle_sim_equiv_partial (f : FModule) (fuel : Nat) (aF aV : Array Int) (h : StRel f.sigs aF aV)
+    (hok : SettleOkSim f fuel aF) (hfix : iterF f (settleF f fuel aF) = settleF f fuel aF) :
+    StRel f.sigs (settleF f fuel aF) (settleV f.sigs (printModuleSim f) fuel aV) :=
+  stRel_settle_sim f fuel aF aV h hok hfix
+
+/-- **module_step_sim_equiv_partial** — the property for the simulation back-end: cycle for cycle, for every input
+    sequence and clock schedule, the module printed with `regular_comb=False` and the simulator pass through
+    corresponding settled states. -/
+theorem module_step_sim_equiv_partial (f : FModule) (fuel : Nat) (cs : List Cycle) (aF aV : Array Int)
+    (h : StRel f.sigs aF aV) (hok : RunOkSim f fuel aF cs) :
+    List.Forall₂ (StRel f.sigs) (runF f fuel aF cs) (runV f.sigs (printModuleSim f) fuel aV cs) :=
+  run_equiv_sim f fuel cs aF aV h hok
+
+/-- Non-vacuity: `Case(sel, {0: a.eq(1), default: [a.eq(x), b.eq(y)]}); If(en, a.eq(z)).Else(b[0].eq(1))` — `Case`
+    with `default`, `If`/`Else`, two targets, a later override and a slice target: `GroupOkSim` holds, the filtered
+    lists differ from the full list, and both emitters give what the simulator gives. -/
+def exSimSigs : Array SigDecl :=
+  #[⟨2, false, 0, "sel"⟩, ⟨4, false, 0, "x"⟩, ⟨4, false, 0, "y"⟩, ⟨4, false, 0, "z"⟩, ⟨1, false, 0, "en"⟩,
+    ⟨4, false, 0, "a"⟩, ⟨4, false, 5, "b"⟩]
+
+def exSimG : CombGroup :=
+  { targets := [5, 6],
+    stmts :=
+      .cons (.case (.sig 0 2 false)
+          (.cons 0 1 false (.cons (.assign (.sig 5 4 false) (.const 1 1 false)) .nil) .nil) true
+          (.cons (.assign (.sig 5 4 false) (.sig 1 4 false)) (.cons (.assign (.sig 6 4 false) (.sig 2 4 false)) .nil)))
+      (.cons (.ite (.sig 4 1 false) (.cons (.assign (.sig 5 4 false) (.sig 3 4 false)) .nil)
+          (.cons (.assign (.slice (.sig 6 4 false) 0 1) (.const 1 1 false)) .nil)) .nil) }
+
+def exSimF : FModule := { sigs := exSimSigs, comb := [exSimG], sync := [] }
+
+example : ∀ a : Array Int, fitsSs (envA a) exSimG.stmts = true → GroupOkSim exSimSigs (envA a) exSimG := by
+  intro a h
+  refine ⟨?_, ?_, h, by decide, by decide, by decide, by decide⟩
+  · simp [exSimG, wfSEs, wfSE, wfSEItems, wfE, wdOf, widthOf, exSimSigs]
+  · simp [exSimG, distinctSs, distinctS, distinctItems, keysOf]
+
+example : fitsSs (envA #[1, 3, 9, 12, 1, 0, 0]) exSimG.stmts = true := by decide
+
+example :
+    filterSs 6 exSimG.stmts =
+      .cons (.case (.sig 0 2 false) (.cons 0 1 false .nil .nil) true
+          (.cons (.assign (.sig 6 4 false) (.sig 2 4 false)) .nil))
+      (.cons (.ite (.sig 4 1 false) .nil
+          (.cons (.assign (.slice (.sig 6 4 false) 0 1) (.const 1 1 false)) .nil)) .nil) := by
+  simp [exSimG, filterSs, filterS, filterItems, targetsS, targetsSs, targetsItems, targetsE]
+
+/-- sel = 1 (default taken), en = 1 (override active): a = z = 12, b = y = 9 on all three sides. -/
+example :
+    let a0 : Array Int := #[1, 3, 9, 12, 1, 0, 0]
+    iterF exSimF a0 = #[1, 3, 9, 12, 1, 12, 9] ∧
+    iterV exSimSigs (printModuleSim exSimF) a0 = #[1, 3, 9, 12, 1, 12, 9] ∧
+    iterV exSimSigs (printModule exSimF) a0 = #[1, 3, 9, 12, 1, 12, 9] := by decide +kernel
+
+/-- What the filter is for (and what a printer that forgets to forward it into `default` emits): if the block of
+    target `b` (id 6) also carried the `a <= x` of the shared `default` branch, `a` would end as x = 3 instead of the
+    override z = 12 — the blocks are evaluated in source order and the stale copy comes last. -/
+example :
+    let bad : VStmts := printSs (.cons (.case (.sig 0 2 false) (.cons 0 1 false .nil .nil) true
+          (.cons (.assign (.sig 5 4 false) (.sig 1 4 false)) (.cons (.assign (.sig 6 4 false) (.sig 2 4 false)) .nil)))
+        .nil)
+    let items : List VItem := [printTargetSim exSimSigs exSimG.stmts 5,
+      .comb (VStmts.append (printSs (resetStmts exSimSigs [6])) bad)]
+    iterV exSimSigs items #[1, 3, 9, 12, 1, 0, 0] = #[1, 3, 9, 12, 1, 3, 9] := by decide +kernel
+
+/-- Negative witness (the excluded region `leafTargetsSs = false`): `b.eq(0); Cat(a, b).eq(y); If(en, b.eq(z))`.
+    The text has the blocks `b: b <= 0; {b, a} <= y; if (en) b <= z` and `a: {b, a} <= y` (the `Cat` assignment is
+    kept for BOTH targets): the simulator ends with b = z = 5, the two processes with b = y[7:4] = 10. -/
+example :
+    let sigs : Array SigDecl := #[⟨8, false, 0, "y"⟩, ⟨4, false, 0, "z"⟩, ⟨1, false, 0, "en"⟩, ⟨4, false, 0, "a"⟩,
+      ⟨4, false, 0, "b"⟩]
+    let ss : Stmts :=
+      .cons (.assign (.sig 4 4 false) (.const 0 1 false))
+      (.cons (.assign (.cat [.sig 3 4 false, .sig 4 4 false]) (.sig 0 8 false))
+      (.cons (.ite (.sig 2 1 false) (.cons (.assign (.sig 4 4 false) (.sig 1 4 false)) .nil) .nil) .nil))
+    let f : FModule := { sigs := sigs, comb := [{ targets := [4, 3], stmts := ss }], sync := [] }
+    let a0 : Array Int := #[0xa7, 5, 1, 0, 0]
+    leafTargetsSs ss = false ∧ fitsSs (envA a0) ss = true ∧
+    iterF f a0 = #[0xa7, 5, 1, 7, 5] ∧ iterV sigs (printModuleSim f) a0 = #[0xa7, 5, 1, 7, 10] ∧
+    iterV sigs (printModule f) a0 = #[0xa7, 5, 1, 7, 5] := by decide +kernel
+
+/-! ## Reset insertion (`insert_resets`)
+
+  `convert` (and the simulator's constructor) turn the `sync` list `sl` of every clock domain that has a reset into
+  `sl + [If(rst, t.eq(t.reset) for the non-reset-less targets t of sl, sorted)]` BEFORE printing.  Model:
+  `insertReset sigs rst rl sl` (LitexModel/Fhdl/ResetInsert.lean; the harness captures the statements before
+  `insert_resets`, the driver applies `insertReset` and the result must be, node for node, the `always @(posedge)`
+  block of the real text and behave like the real Evaluator on the lowered fragment). -/
+
+/-- **reset_insertion_correct** (full strength): with the reset low the domain executes exactly its own statements;
+    with it high every target of the domain that is not reset-less ends the edge with its reset value (whatever the
+    statements assigned), and every other signal — reset-less registers included — is what the statements made it. -/
+theorem reset_insertion_correct (sigs : Array SigDecl) (ρ : Env) (rst : Nat) (rl : List Nat) (ss : Stmts) (m : Mods) :
+    (tn (sigs.getD rst default).w (ρ rst) = 0 →
+      execFs ρ (insertReset sigs rst rl ss) m = execFs ρ ss m) ∧
+    (tn (sigs.getD rst default).w (ρ rst) ≠ 0 → ∀ u,
+      lookupM (execFs ρ (insertReset sigs rst rl ss) m) u =
+        if u ∈ targetsSs ss ∧ u ∉ rl then some (resetVal sigs u) else lookupM (execFs ρ ss m) u) :=
+  ⟨insertReset_inactive sigs ρ rst rl ss m, fun h u => insertReset_active sigs ρ rst rl ss m h u⟩
+
+/-- Non-vacuity: `r <= r + 1; q <= r` with `q` reset-less, `r` reset to 9: reset high ⇒ r = 9, q = old r; the inserted
+    statement is `if (rst) r <= 9` (q is not reset). -/
+example :
+    let sigs : Array SigDecl := #[⟨4, false, 9, "r"⟩, ⟨4, false, 3, "q"⟩, ⟨1, false, 0, "rst"⟩]
+    let ss : Stmts := .cons (.assign (.sig 0 4 false) (.op2 .add (.sig 0 4 false) (.const 1 1 false)))
+      (.cons (.assign (.sig 1 4 false) (.sig 0 4 false)) .nil)
+    resetTargets [1] ss = [0] ∧
+    execFs (envL [5, 0, 1]) (insertReset sigs 2 [1] ss) [] = [(0, 9), (1, 5), (0, 6)] ∧
+    execFs (envL [5, 0, 0]) (insertReset sigs 2 [1] ss) [] = [(1, 5), (0, 6)] := by decide
+
 /-! ## Layer 3 — memories (one port, one clock)
 
   `memEdgeF`/`memReadF`: one clock edge / `dat_r` of the simulator's MemoryToArray semantics; `memEdgeV`/`memReadV`:
@@ -428,6 +595,114 @@ example :
     let rs : MemIn := ⟨1, 0, 0, false, true⟩
     memInOk c rs = false ∧ memRunF c (memInit c) [w1, rs] = [0x55, 2] ∧ memRunV c (memInit c) [w1, rs] = [0x55, 0x55] := by
   decide
+
+/-! ### several ports, one or several clocks
+
+  `edgeFN`/`readFN`: one instant (the clocks `clks` rise) / the `dat_r` outputs of the simulator's MemoryToArray
+  semantics for a memory with any number of ports (read statements on the committed words, the writes of the ports
+  merging in port order); `edgeVN`/`readVN`: of the text memory.py emits — one `always @(posedge clk_n)` and one
+  `assign dat_r` per port, with `effMode`: EVERY port forced to READ_FIRST when the ports do not share one clock
+  (LitexModel/Fhdl/MemoryN.lean; both compared on every run with the real simulator and with the independent reading
+  of the real text, on multi-port same-clock, multi-clock, mixed-mode, two-writer memories, inside and outside the
+  hypotheses).  `memCfgOkN`: every port has a legal granularity, its mode is kept by the text (`modeKept`:
+  single-clock memory, or the port is READ_FIRST / async), NO_CHANGE ports are write capable;
+  `insOk`: per port `memInOk` (address in range, NO_CHANGE enables all-or-nothing).
+
+  Full statement (does NOT hold — besides the two one-port witnesses above, the negative witness below: the open
+  finding C01-memory-multiclock-forced-read-first):
+  theorem mem_ports_equiv (c : MemCfgN) (st : MemStN) (clks : List Nat) (ins : List MemIn) (hs : memStOkN c st = true)
+      (ha : ∀ i ∈ ins, i.adr < c.depth) : edgeFN c st clks ins = edgeVN c st clks ins
+-/
+
+/-- **mem_ports_equiv_partial**: one instant of a multi-port memory — whatever subset of the clocks rises, every
+    mode mix, every granularity mix, several writers (merging in port order), read enables. -/
+theorem mem_ports_equiv_partial (c : MemCfgN) (st : MemStN) (clks : List Nat) (ins : List MemIn)
+    (hc : memCfgOkN c = true) (hs : memStOkN c st = true) (hi : insOk c c.ports ins = true) :
+    edgeFN c st clks ins = edgeVN c st clks ins ∧
+    readFN c (edgeFN c st clks ins) ins = readVN c (edgeVN c st clks ins) ins := by
+  have he := memEdgeN_equiv c st clks ins hc hs hi
+  refine ⟨he, ?_⟩
+  rw [he]
+  exact memReadN_equiv c _ ins hc (memStOkN_edgeV c st clks ins hs hi) hi
+
+/-- **mem_ports_equiv_sameclock**: all ports on one clock — NO condition on the modes (WRITE_FIRST / READ_FIRST /
+    NO_CHANGE / async read in any mix). -/
+theorem mem_ports_equiv_sameclock (c : MemCfgN) (st : MemStN) (clks : List Nat) (ins : List MemIn)
+    (h1 : multiClock c = false)
+    (hp : c.ports.all (fun p => memCfgOk (p.cfg c) && (decide (p.mode ≠ .noChange) || p.hasWe)) = true)
+    (hs : memStOkN c st = true) (hi : insOk c c.ports ins = true) :
+    edgeFN c st clks ins = edgeVN c st clks ins := by
+  apply memEdgeN_equiv c st clks ins _ hs hi
+  simp only [memCfgOkN, List.all_eq_true] at hp ⊢
+  intro p hpm
+  have := hp p hpm
+  simp only [Bool.and_eq_true] at this
+  simp only [portOk, modeKept, h1, Bool.not_false, Bool.true_or, Bool.and_true, Bool.and_eq_true]
+  exact this
+
+/-- **mem_ports_equiv_multiclock_partial**: ports on different clocks, any interleaving of their edges (also
+    coincident ones): holds when every port is READ_FIRST or async-read — the modes memory.py's rewrite leaves alone. -/
+theorem mem_ports_equiv_multiclock_partial (c : MemCfgN) (st : MemStN) (clks : List Nat) (ins : List MemIn)
+    (hp : c.ports.all (fun p => memCfgOk (p.cfg c) && (decide (p.mode = .readFirst) || decide (p.mode = .async))) = true)
+    (hs : memStOkN c st = true) (hi : insOk c c.ports ins = true) :
+    edgeFN c st clks ins = edgeVN c st clks ins := by
+  apply memEdgeN_equiv c st clks ins _ hs hi
+  simp only [memCfgOkN, List.all_eq_true] at hp ⊢
+  intro p hpm
+  have := hp p hpm
+  simp only [Bool.and_eq_true, Bool.or_eq_true, decide_eq_true_eq] at this
+  simp only [portOk, modeKept, Bool.and_eq_true, Bool.or_eq_true, decide_eq_true_eq, Bool.not_eq_true']
+  refine ⟨⟨this.1, ?_⟩, ?_⟩
+  · rcases this.2 with h | h
+    · exact Or.inl (Or.inr h)
+    · exact Or.inr h
+  · rcases this.2 with h | h <;> exact Or.inl (by rw [h]; decide)
+
+/-- **mem_ports_run_equiv_partial**: for EVERY schedule of instants (rising clocks + the inputs of every port) within
+    the side condition, from the power-up state, all `dat_r` outputs agree after every instant. -/
+theorem mem_ports_run_equiv_partial (c : MemCfgN) (hc : memCfgOkN c = true) (hd : 0 < c.depth)
+    (sched : List (List Nat × List MemIn)) (hi : ∀ x ∈ sched, insOk c c.ports x.2 = true) :
+    runFN c (memInitN c) sched = runVN c (memInitN c) sched :=
+  memRunN_equiv c hc sched _ (memStOkN_init c hd) hi
+
+/-- Non-vacuity: 16-bit words, depth 5; port 0 WRITE_FIRST read/write with byte enables, port 1 READ_FIRST read-only
+    with `re`, port 2 a second WRITER (granularity 0), all on clock 7.  Instant 1: port 0 writes the high byte of
+    word 4 while port 1 reads word 4 (old value) and port 2 writes word 0; instant 2: ports 0 and 2 write the SAME
+    word 4 (low byte / whole word: the later port wins), port 1 holds (`re` = 0). -/
+def exMemN : MemCfgN :=
+  { w := 16, depth := 5, init := [0xbeef, 1, 2, 3, 0x1234],
+    ports := [⟨8, .writeFirst, false, true, 7⟩, ⟨0, .readFirst, true, false, 7⟩, ⟨0, .writeFirst, false, true, 7⟩] }
+
+example :
+    let sched : List (List Nat × List MemIn) :=
+      [([7], [⟨4, 0xaa55, 2, false, false⟩, ⟨4, 0, 0, true, false⟩, ⟨0, 0x7777, 1, false, false⟩]),
+       ([7], [⟨4, 0x00cc, 1, false, false⟩, ⟨0, 0, 0, false, false⟩, ⟨4, 0x5a5a, 1, false, false⟩])]
+    memCfgOkN exMemN = true ∧ multiClock exMemN = false ∧ (∀ x ∈ sched, insOk exMemN exMemN.ports x.2 = true) ∧
+    runFN exMemN (memInitN exMemN) sched = [[0xaa34, 0x1234, 0x7777], [0x5a5a, 0x1234, 0x5a5a]] ∧
+    runVN exMemN (memInitN exMemN) sched = [[0xaa34, 0x1234, 0x7777], [0x5a5a, 0x1234, 0x5a5a]] := by decide
+
+/-- Two clocks, READ_FIRST writer on clock 10, READ_FIRST reader on clock 11, coincident and separate edges. -/
+example :
+    let c : MemCfgN := { w := 8, depth := 6, init := [3, 1, 4],
+                         ports := [⟨0, .readFirst, false, true, 10⟩, ⟨0, .readFirst, false, false, 11⟩] }
+    let sched : List (List Nat × List MemIn) :=
+      [([10], [⟨2, 0x55, 1, false, false⟩, ⟨2, 0, 0, false, false⟩]),
+       ([10, 11], [⟨2, 0x66, 1, false, false⟩, ⟨2, 0, 0, false, false⟩]),
+       ([11], [⟨0, 0, 0, false, false⟩, ⟨2, 0, 0, false, false⟩])]
+    multiClock c = true ∧ memCfgOkN c = true ∧
+    runFN c (memInitN c) sched = [[4, 0], [0x55, 0x55], [0x55, 0x66]] ∧
+    runVN c (memInitN c) sched = [[4, 0], [0x55, 0x55], [0x55, 0x66]] := by decide
+
+/-- Negative witness 3 (finding C01-memory-multiclock-forced-read-first): a WRITE_FIRST read/write port on clock 10
+    next to a read port on clock 11.  The write of 0x55 to word 0: the simulator's port 0 shows the NEW word
+    (transparent read through the address register), the text — rewritten to READ_FIRST — the registered OLD one. -/
+example :
+    let c : MemCfgN := { w := 8, depth := 8, init := [3, 1, 4],
+                         ports := [⟨0, .writeFirst, false, true, 10⟩, ⟨0, .readFirst, false, false, 11⟩] }
+    let sched : List (List Nat × List MemIn) := [([10], [⟨0, 0x55, 1, false, false⟩, ⟨0, 0, 0, false, false⟩])]
+    multiClock c = true ∧ memCfgOkN c = false ∧ memStOkN c (memInitN c) = true ∧
+    insOk c c.ports (sched.head!).2 = true ∧
+    runFN c (memInitN c) sched = [[0x55, 0]] ∧ runVN c (memInitN c) sched = [[3, 0]] := by decide
 
 /-! ## Instances (`instance.py`)
 
